@@ -43,27 +43,30 @@ type vfDriver struct {
 	Run func(w *vfWorld)
 	// Runs per quick-tier invocation (total across workers) when no explicit count is given.
 	QuickRuns int
+	// Twin: the driver is executed twice per tape (see vfRunOne)
+	Twin bool
 }
 
 var vfDrivers = map[string]*vfDriver{}
 
 type vfRunResult struct {
-	Index     uint64         `json:"index"`
-	Hash      string         `json:"hash"`
-	Verdict   string         `json:"verdict"` // ok | violation | error
-	Viol      *vfViolation   `json:"violation,omitempty"`
-	Err       string         `json:"error,omitempty"`
-	Probes    map[string]int `json:"probes,omitempty"`
-	Faults    map[string]int `json:"faults,omitempty"`
-	KnownHits map[string]int `json:"known_hits,omitempty"`
-	SimS      float64        `json:"sim_s"`
-	Steps     int            `json:"steps"`
-	Requests  int            `json:"requests"`
-	Truncated bool           `json:"truncated"`
-	NonTriv   bool           `json:"nontrivial"`
-	Sample    interface{}    `json:"sample,omitempty"`
-	Trace     []string       `json:"trace,omitempty"`
-	Tape      []vfDraw       `json:"-"`
+	Index      uint64         `json:"index"`
+	Hash       string         `json:"hash"`
+	Verdict    string         `json:"verdict"` // ok | violation | error
+	Viol       *vfViolation   `json:"violation,omitempty"`
+	Err        string         `json:"error,omitempty"`
+	Probes     map[string]int `json:"probes,omitempty"`
+	Faults     map[string]int `json:"faults,omitempty"`
+	KnownHits  map[string]int `json:"known_hits,omitempty"`
+	SimS       float64        `json:"sim_s"`
+	Steps      int            `json:"steps"`
+	Requests   int            `json:"requests"`
+	Truncated  bool           `json:"truncated"`
+	NonTriv    bool           `json:"nontrivial"`
+	Sample     interface{}    `json:"sample,omitempty"`
+	Trace      []string       `json:"trace,omitempty"`
+	Tape       []vfDraw       `json:"-"`
+	transcript []string
 }
 
 type vfReplayFile struct {
@@ -123,6 +126,30 @@ func vfLoadKnown(path string) map[string]bool {
 
 // vfRunOne executes one run = one tape = one world, inside a fresh synctest bubble.
 func vfRunOne(t *testing.T, prop, tier, variant string, tape *vfTape, cryptoSeed uint64, known map[string]bool) (res *vfRunResult) {
+	drv := vfDrivers[prop]
+	if drv == nil || !drv.Twin {
+		return vfRunOnce(t, prop, tier, variant, tape, cryptoSeed, known, false, nil)
+	}
+	// twin runs: the same tape (hence the same world, the same crypto/rand stream, the same histories)
+	// is executed twice in two fresh bubbles; the second execution perturbs a seeded subset of requests
+	// (the perturbation is drawn from a forked tape, so the main tape stays in step); the two
+	// transcripts must be identical
+	a := vfRunOnce(t, prop, tier, variant, tape, cryptoSeed, known, false, nil)
+	if a.Verdict != "ok" {
+		return a
+	}
+	b := vfRunOnce(t, prop, tier, variant, vfNewReplayTape(tape.Values()), cryptoSeed, known, true, a.transcript)
+	b.Tape = a.Tape
+	b.Hash = a.Hash + "+" + b.Hash
+	if len(b.Hash) > 49 {
+		b.Hash = b.Hash[:12] + b.Hash[25:37]
+	}
+	b.Requests += a.Requests
+	b.Trace = append(append(a.Trace, "======== twin execution B (perturbed) ========"), b.Trace...)
+	return b
+}
+
+func vfRunOnce(t *testing.T, prop, tier, variant string, tape *vfTape, cryptoSeed uint64, known map[string]bool, twinB bool, twinRef []string) (res *vfRunResult) {
 	res = &vfRunResult{Verdict: "ok"}
 	drv := vfDrivers[prop]
 	if drv == nil {
@@ -150,6 +177,7 @@ func vfRunOne(t *testing.T, prop, tier, variant string, tape *vfTape, cryptoSeed
 		w.known = known
 		w.variant = variant
 		w.cryptoSeed = cryptoSeed
+		w.twinB, w.twinRef = twinB, twinRef
 		defer func() {
 			if p := recover(); p != nil {
 				switch e := p.(type) {
@@ -182,6 +210,7 @@ func vfRunOne(t *testing.T, prop, tier, variant string, tape *vfTape, cryptoSeed
 			res.Sample = w.sample
 			res.Trace = w.log
 			res.Tape = tape.Draws()
+			res.transcript = w.transcript
 		}()
 		drv.Run(w)
 	})
